@@ -27,7 +27,7 @@ def predicate_search11(ctx, build, lines, hout):
                 a, b = int(t[1], 16), int(t[2], 16); exp = ('SOME ' if op == 'partial_cmp' else '') + str((a > b) - (a < b))
             elif op == 'ark.from_str':
                 s = l.split(None, 1)[1].strip().strip('"'); exp = 'OK %x' % (int(s) % m if s else 0)
-            elif op.startswith('from_u') or op == 'from_bool':
+            elif op.startswith('from_u') or op in ('from_bool', 'ark.from_biguint'):
                 exp = '%x' % (int(t[1], 16) % m)
             elif op in ('ark.deser', 'ark.deser.drip'):
                 b = bytes.fromhex(t[1]) if t[1] != '-' else b''
